@@ -687,12 +687,7 @@ func (c *checker) first(j *job, res *result) {
 		c.r.Machinery(fmt.Sprintf("case %s: the run did not return within %v\n%s", c.caseName(j), hangAfter, tail(res.Dump, 3000)))
 		return
 	}
-	if len(res.Flaky) > 0 && res.Run.OK {
-		c.mech["fault-free runs that failed once and succeeded when repeated"]++
-		if c.mech["fault-free runs that failed once and succeeded when repeated"] <= 5 {
-			c.r.Note("repeated: %s: %v", c.caseName(j), res.Flaky)
-		}
-	}
+	c.noteFlaky(j, res)
 	if faultFree(j) {
 		k := stateKey(j.Prog, j.Exec, j.Files)
 		if c.memo[k] == nil {
@@ -716,6 +711,29 @@ func (c *checker) first(j *job, res *result) {
 	c.waiting[k] = append(c.waiting[k], f)
 }
 
+// noteFlaky records (in the evidence, never as a verdict) fault-free runs that failed
+// and succeeded when repeated on the same files. On an overloaded machine the
+// in-process cluster loses tasks ("lost on 5 consecutive attempts"); "task ... not
+// found" is something else: a worker whose task graph differs from the driver's (see
+// /verif/.build/findings/C13-2.md).
+func (c *checker) noteFlaky(j *job, res *result) {
+	if len(res.Flaky) == 0 || !res.Run.OK {
+		return
+	}
+	const k = "fault-free runs that failed once and succeeded when repeated"
+	c.mech[k]++
+	notFound := false
+	for _, e := range res.Flaky {
+		notFound = notFound || (strings.Contains(e, "task ") && strings.Contains(e, " not found"))
+	}
+	if notFound {
+		c.mech[k+": 'task ... not found' (worker's task graph differs from the driver's)"]++
+	}
+	if c.mech[k] <= 5 || notFound && c.mech[k] <= 20 {
+		c.r.Note("repeated: %s: %v", c.caseName(j), res.Flaky)
+	}
+}
+
 // drain executes the queued fault-free successor runs.
 func (c *checker) drain() {
 	for len(c.queued) > 0 {
@@ -729,12 +747,7 @@ func (c *checker) drain() {
 				delete(c.waiting, k)
 				return
 			}
-			if len(res.Flaky) > 0 && res.Run.OK {
-				c.mech["fault-free runs that failed once and succeeded when repeated"]++
-				if c.mech["fault-free runs that failed once and succeeded when repeated"] <= 5 {
-					c.r.Note("repeated: second run of %s: %v", c.caseName(j), res.Flaky)
-				}
-			}
+			c.noteFlaky(j, res)
 			c.memo[k] = res
 			for _, f := range c.waiting[k] {
 				c.second(f, res)
